@@ -48,8 +48,10 @@ SnapBytesOK(s, ls) ==
     \A h \in 1 .. Len(s.hs) : s.hs[h].k \in {"snap", "cell"} => \A i \in 1 .. Len(ls.hs[h].regs) :
         LET o == ls.hs[h].regs[i] IN (o.r \in 1 .. Len(s.regs)) => (o.got = o.n /\ o.mem = s.regs[o.r].mem)
 
+\* (which of two applicable refusals of from_arc_regions is reported is not compared: Regions.tla, FromErrSet)
 ResEq(lr, xr) == /\ lr.k = xr.k
-                 /\ \A f \in DOMAIN xr \ {"k"} : f \in DOMAIN lr /\ lr[f] = xr[f]
+                 /\ \A f \in DOMAIN xr \ {"k", "e"} : f \in DOMAIN lr /\ lr[f] = xr[f]
+                 /\ (xr.k = "err" => lr.e \in {"NoMemoryRegion", "UnsortedMemoryRegions", "MemoryRegionOverlap", "InvalidGuestAddress"})
 ResTag(op) == IF op \in {"write", "read"} THEN "data" ELSE IF op \in {"snap", "replace", "atomic"} THEN "snapshot" ELSE "maps"
 
 TraceInit == st = Cold /\ last = [op |-> "none", a |-> [x |-> 0], r |-> Ok(0)] /\ l = 1
